@@ -213,7 +213,7 @@ def explore(
         fired(f"crash_{seam}:{kind}")
         out["phases"][pc] = out["phases"].get(pc, 0) + 1
         n_ck_before = sum(1 for s in ck_seq if s < seq)
-        expected = ref.payloads[n_ck_before - 1][2] if n_ck_before > 0 else pre_final
+        expected = ref.payloads[n_ck_before - 1][2] if n_ck_before > 0 else None
         exp_sem = payload_digest(expected)
         if ck["mode"] == "callback":
             durable = c.payloads[-1][2] if c.payloads else None
@@ -221,9 +221,14 @@ def explore(
                 raise HarnessError("callback payload prefix differs from the reference")
         else:
             durable = read_file_checkpoint(run_file)
+            if n_ck_before == 0 and pre_final is not None and durable == pre_final:
+                # before this run's first checkpoint the file may still hold, byte for byte, the final payload of the
+                # earlier run (a fresh run may also clear it): both are "current"; a torn or partial one is not
+                probe("previous_run_payload_still_intact")
+                durable = None
             if "c12" in want:
                 w12 = {**where, "phase": pc, "seam": seam, "every": ck.get("every")}
-                ack = c.last_checkpoint_bytes if c.last_checkpoint_bytes is not None else pre_final
+                ack = c.last_checkpoint_bytes
                 stale_suffix = (
                     durable is not None and ack is not None and len(durable) > len(ack)
                     and durable[: len(ack)] == ack
